@@ -282,6 +282,7 @@ def check(ctx):
     check_retirement(ctx)
     c17.check_recover(ctx)
     c17.check_edit_numbers(ctx)   # the edit that retires a log is not overwritten with the old numbers
+    c17.check_snapshot(ctx)       # the MANIFEST every open writes afresh names every file of every level
     from . import c02, c13
     c02.check_manifest(ctx)    # a kill between the CURRENT switch and the MANIFEST record must leave an openable database
     c13.check_gc(ctx)          # a log the MANIFEST still needs for replay is never collected
